@@ -20,9 +20,9 @@ func variants() []Variant {
 		Issues: []IssueSpec{
 			{"tka", "uta", 0, 2, 3, true},
 			{"tkb", "utb", 0, 0, 2, false},
-			{"tka", "utc", 0, 2, 3, true},  // symbol of the first, fresh min unit
-			{"tkc", "uta", 0, 2, 3, true},  // fresh symbol, min unit of the first
-			{"uta", "tka", 0, 2, 3, true},  // crossed with the first
+			{"tka", "utc", 0, 2, 3, true}, // symbol of the first, fresh min unit
+			{"tkc", "uta", 0, 2, 3, true}, // fresh symbol, min unit of the first
+			{"uta", "tka", 0, 2, 3, true}, // crossed with the first
 			{nativeSymbol, "utd", 0, 2, 3, true},
 			{"tkd", nativeMinUnit, 0, 2, 3, true},
 		},
@@ -31,7 +31,7 @@ func variants() []Variant {
 		Mints:    []MintSpec{{"1", "self"}},
 		Burns:    []string{"1"},
 		Transfer: true,
-		Quick:    4, Thorough: 5,
+		Quick:    6, Thorough: 7,
 	})
 
 	// cap: one symbol with two parameterisations (exact duplicates of the identity, different supplies) plus a
@@ -53,7 +53,7 @@ func variants() []Variant {
 			Mints:        allMints,
 			Burns:        []string{"1", "all"},
 			Transfer:     true,
-			Quick:        4, Thorough: 5,
+			Quick:        6, Thorough: 7,
 		}
 		vs = append(vs, v)
 	}
@@ -73,7 +73,7 @@ func variants() []Variant {
 				Burns:    []string{"1"},
 				Transfer: true,
 				Tax:      tax, MintRatio: ratio, BaseFee: 60001,
-				Quick: 4, Thorough: 5,
+				Quick: 6, Thorough: 8,
 			})
 		}
 	}
